@@ -859,6 +859,15 @@ class Fxp():
         # conversion factor
         conv_factor = self._get_conv_factor(raw)
 
+        # vdtype (set before the stored value is read back and before the dtype string is rendered)
+        if raw:
+            if vdtype is not None:
+                self.vdtype = vdtype
+        else:
+            self.vdtype = original_vdtype
+        if self.vdtype is not None and self.vdtype != complex and np.issubdtype(self.vdtype, np.integer) and self.n_frac > 0:
+            self.vdtype = float  # change to float type if Fxp has fractional part (also after a raw write, e.g. resize)
+
         # round, saturate and store
         if original_vdtype != complex and not np.issubdtype(original_vdtype, np.complexfloating):
             # val_dtype determination
@@ -938,15 +947,6 @@ class Fxp():
 
         # update dtype
         self._update_dtype()
-
-        # vdtype
-        if raw:
-            if vdtype is not None:
-                self.vdtype = vdtype
-        else:
-            self.vdtype = original_vdtype
-        if self.vdtype is not None and self.vdtype != complex and np.issubdtype(self.vdtype, np.integer) and self.n_frac > 0:
-            self.vdtype = float  # change to float type if Fxp has fractional part (also after a raw write, e.g. resize)
 
         # check inaccuracy
         if not np.equal(val, new_val/conv_factor).all() :
